@@ -5,6 +5,17 @@ Tie: translator (nine rotation-matrix entries, re-proved orthogonal / = Rz·Ry·
 `transform_motion` (deg / rad) per time step; strict Rat correspondence of `velocity` / `acceleration`
 (scalar step and time array, 1-D and 2-D) on dyadic signals.
 Search: rigidity, zero rotation, deg/rad, independent Euler rotation, exactness on polynomials, linearity, shape.
+
+Second part (cases of kind "tm" / "gr" / "hom", corpus/C20/*.json first): the same clauses and the same model tie on
+* other spellings of the input: motion / newref / signal / time as ndarray, list, tuple, sequences of arrays, integer and
+  float32 arrays, Fortran-ordered / transposed / sliced / strided views, read-only arrays; `rotunit` by default, by position,
+  by keyword; the step as Python float, numpy float64, and (finding F39) int / numpy integer / float32 / 0-d array;
+* boundary values: angles on the axes and beyond a full turn, +-0, 1e-9; positions and body points of magnitude 2^+-200, zero and
+  one-axis body points, offsets of 1e9; signals times 2^+-200, time offsets up to 2^30, decimal steps (0.1, 0.01, 0.001 ...)
+  as scalar and as the array float arithmetic makes of them, 1..4 samples, constants;
+* histories: several calls on ONE motion / newref / signal / time object, in-place changes by the caller between the calls,
+  every earlier result re-read after every later call, read-only inputs;
+* crashes: every call of the implementation is wrapped, an exception is a failing clause.
 """
 import math
 from fractions import Fraction
@@ -19,7 +30,10 @@ USES_TRANSLATOR = True
 ANCHOR_PREFIX = ("mo_",)
 RULE = ("random 6-dof motions (1-5 time steps, angles up to ±180 deg / ±pi rad, zero-rotation and single-axis cases) x body points; "
         "dyadic polynomial and random signals x uniform grids (power-of-two steps) and non-uniform dyadic grids, 1-D / 2-D; "
-        "non-trivial = at least two non-zero angles, or signal of >= 5 samples; distinct by input")
+        "non-trivial = at least two non-zero angles, or signal of >= 5 samples; distinct by input; "
+        "cases (tm / gr / hom): containers x number types x argument passing, boundary angles / magnitudes 2^+-200 / decimal steps / "
+        "1-4 samples, histories of 3-8 steps on one object with in-place changes; non-trivial = >= 2 calls or >= 2 non-zero angles "
+        "(tm), >= 5 samples or >= 3 steps (gr)")
 
 
 def euler(rx, ry, rz):
@@ -30,14 +44,707 @@ def euler(rx, ry, rz):
     return Rz @ Ry @ Rx
 
 
+# ======================================================================================================================
+# Second part (audit after the three seeded rounds): the same clauses on other SPELLINGS of the input (containers, number
+# types, ways to pass an argument), on BOUNDARY values (angles on the axes / beyond a turn, magnitudes 2^+-200, large time
+# offsets, decimal steps, 1..4 samples) and on HISTORIES (the second use of the caller's arrays, in-place changes between
+# calls, earlier results re-read later).  A case is a JSON-serialisable dict (`kind` = "tm" | "gr" | "hom"); `_tm_eval` /
+# `_gr_eval` / `_hom_eval` evaluate the clauses on the implementation and are shared by run() and replay().
+# ======================================================================================================================
+TM_CONT_FLOAT = ["ndarray", "list", "tuple", "tuple-of-arrays", "list-of-arrays", "F-order", "T-view", "slice-view", "step-view",
+                 "readonly", "float32"]
+TM_CONT_INT = ["int64", "int32", "list-int", "tuple-int", "tuple-of-int-arrays", "readonly-int64", "int-T-view"]
+TM_CONT_MUTABLE = ["ndarray", "F-order", "T-view", "slice-view", "step-view"]
+REF_CONT_FLOAT = ["list", "tuple", "ndarray", "readonly", "step-view"]
+REF_CONT_INT = ["list-int", "tuple-int", "int64", "int32"]
+X_CONT_FLOAT = ["ndarray", "list", "tuple", "readonly", "step-view"]
+X_CONT_INT = ["int64", "int32", "list-int", "tuple-int"]
+X2_CONT_FLOAT = ["ndarray", "list", "tuple", "list-of-arrays", "F-order", "T-view", "readonly"]
+X2_CONT_INT = ["int64", "list-int", "int-T-view"]
+T_SCALAR_FLOAT = ["float", "np.float64"]
+T_SCALAR_OTHER = ["int", "np.int64", "np.float32", "0-d"]        # a scalar step that is not a Python float (finding F39)
+T_ARR_FLOAT = ["ndarray", "list", "tuple", "readonly", "step-view"]
+T_ARR_INT = ["int64", "list-int", "tuple-int"]
+TINY = 1e-300
+
+
+def _call(f, *a, **k):
+    """(value, None) or (None, 'err:Type: message') — an exception of the implementation never leaves the harness"""
+    try:
+        return f(*a, **k), None
+    except Exception as e:                                        # noqa: BLE001
+        return None, "err:%s: %s" % (type(e).__name__, str(e)[:120])
+
+
+def _ro(a):
+    a.setflags(write=False)
+    return a
+
+
+def _make_2d(vals, cont):
+    """the (rows x columns) numbers `vals` in the container `cont`"""
+    nr, nc = len(vals), len(vals[0]) if vals else 0
+    fl = [[float(v) for v in r] for r in vals]
+    it = lambda: [[int(v) for v in r] for r in vals]
+    if cont == "ndarray":
+        return np.array(fl, dtype=float).reshape(nr, nc)
+    if cont == "list":
+        return fl
+    if cont == "tuple":
+        return tuple(tuple(r) for r in fl)
+    if cont == "tuple-of-arrays":
+        return tuple(np.array(r, dtype=float) for r in fl)
+    if cont == "list-of-arrays":
+        return [np.array(r, dtype=float) for r in fl]
+    if cont == "F-order":
+        return np.asfortranarray(np.array(fl, dtype=float).reshape(nr, nc))
+    if cont == "T-view":
+        return np.array(fl, dtype=float).reshape(nr, nc).T.copy().T
+    if cont == "slice-view":
+        big = np.full((nr + 2, nc + 3), 7.25)
+        big[1:nr + 1, 2:nc + 2] = np.array(fl, dtype=float).reshape(nr, nc)
+        return big[1:nr + 1, 2:nc + 2]
+    if cont == "step-view":
+        big = np.full((nr, 2 * nc), -3.5)
+        big[:, ::2] = np.array(fl, dtype=float).reshape(nr, nc)
+        return big[:, ::2]
+    if cont == "readonly":
+        return _ro(np.array(fl, dtype=float).reshape(nr, nc))
+    if cont == "float32":
+        return np.array(fl, dtype=np.float32).reshape(nr, nc)
+    if cont == "int64":
+        return np.array(it(), dtype=np.int64).reshape(nr, nc)
+    if cont == "int32":
+        return np.array(it(), dtype=np.int32).reshape(nr, nc)
+    if cont == "list-int":
+        return it()
+    if cont == "tuple-int":
+        return tuple(tuple(r) for r in it())
+    if cont == "tuple-of-int-arrays":
+        return tuple(np.array(r, dtype=np.int64) for r in it())
+    if cont == "readonly-int64":
+        return _ro(np.array(it(), dtype=np.int64).reshape(nr, nc))
+    if cont == "int-T-view":
+        return np.array(it(), dtype=np.int64).reshape(nr, nc).T.copy().T
+    raise ValueError("container " + cont)
+
+
+def _make_1d(vals, cont):
+    fl = [float(v) for v in vals]
+    if cont == "ndarray":
+        return np.array(fl, dtype=float)
+    if cont == "list":
+        return fl
+    if cont == "tuple":
+        return tuple(fl)
+    if cont == "readonly":
+        return _ro(np.array(fl, dtype=float))
+    if cont == "step-view":
+        big = np.full(2 * len(fl), 11.0)
+        big[::2] = fl
+        return big[::2]
+    if cont == "int64":
+        return np.array([int(v) for v in vals], dtype=np.int64)
+    if cont == "int32":
+        return np.array([int(v) for v in vals], dtype=np.int32)
+    if cont == "list-int":
+        return [int(v) for v in vals]
+    if cont == "tuple-int":
+        return tuple(int(v) for v in vals)
+    raise ValueError("container " + cont)
+
+
+def _make_step(h, cont):
+    if cont == "float":
+        return float(h)
+    if cont == "np.float64":
+        return np.float64(float(h))
+    if cont == "int":
+        return int(h)
+    if cont == "np.int64":
+        return np.int64(int(h))
+    if cont == "np.float32":
+        return np.float32(float(h))
+    if cont == "0-d":
+        return np.array(float(h))
+    raise ValueError("step type " + cont)
+
+
+# ---- transform_motion cases -------------------------------------------------------------------------------------------
+def _tm_states(case):
+    """pristine float state before every call step: [(step index, P (6, nt), ref (3,), unit)]"""
+    P = np.array(case["motion"], dtype=float).reshape(6, -1)
+    ref, out = None, []
+    for k, st in enumerate(case["steps"]):
+        if st["op"] == "set":
+            P = P.copy()
+            P[st["row"], st["col"]] = st["value"]
+        elif st["op"] == "setref":
+            ref = ref.copy()
+            ref[st["idx"]] = st["value"]
+        else:
+            if st.get("rcont") != "same":
+                ref = np.array(st["newref"], dtype=float)
+            out.append((k, P, ref, st["unit"]))
+    return out
+
+
+def _tm_lines(case):
+    return ["mo.transform %s %s" % ("1" if unit == "deg" else "0", " ".join(fbits(v) for v in list(P[:, i]) + list(ref)))
+            for _, P, ref, unit in _tm_states(case) for i in range(P.shape[1])]
+
+
+def _tm_eval(case, transform_motion, report, model=None, disagree=None):
+    """evaluate the clauses of the transformation on one case (one motion OBJECT, used by every step)"""
+    states = {k: (P, ref, unit) for k, P, ref, unit in _tm_states(case)}
+    mot = _make_2d(case["motion"], case["mcont"])
+    rel = 1e-5 if case["mcont"] == "float32" else 1e-10
+    refobj, earlier, deferred, mi = None, [], [], 0
+    for k, st in enumerate(case["steps"]):
+        if st["op"] == "set":
+            mot[st["row"]][st["col"]] = st["value"]              # the caller changes his array in place
+            continue
+        if st["op"] == "setref":
+            refobj[st["idx"]] = st["value"]
+            continue
+        P, ref, unit = states[k]
+        nt = P.shape[1]
+        if st.get("rcont") != "same":
+            refobj = _make_1d(st["newref"], st["rcont"])
+        if st["unitarg"] == "default":
+            out, err = _call(transform_motion, mot, refobj)
+        elif st["unitarg"] == "pos":
+            out, err = _call(transform_motion, mot, refobj, unit)
+        else:
+            out, err = _call(transform_motion, motion=mot, newref=refobj, rotunit=unit) if st["unitarg"] == "kw-all" else \
+                _call(transform_motion, mot, refobj, rotunit=unit)
+        mlines = None
+        if model is not None:
+            mlines = model[mi:mi + nt]
+            mi += nt
+        if err is not None:
+            report("transform_motion returns the position of the new point for a valid 6-dof motion (it raised)",
+                   "positions of shape (3, %d)" % nt, err, step=k)
+            continue
+        out = np.asarray(out)
+        if out.shape != (3, nt):
+            report("one position per time step: result of shape (3, nt)", [3, nt], list(out.shape), step=k)
+            continue
+        outf = out.astype(float)
+        bad = set()
+        for i in range(nt):
+            pos, S = P[:3, i], float(np.max(np.abs(ref)) + np.max(np.abs(P[:3, i])))
+            ang = [float(a) if unit == "rad" else math.radians(float(a)) for a in P[3:, i]]
+            e = euler(*ang) @ ref + pos
+            if "euler" not in bad and not np.all(np.abs(e - outf[:, i]) <= rel * S):
+                bad.add("euler")
+                report("result equals an independent z-y-x Euler rotation plus the reference position",
+                       e.tolist(), outf[:, i].tolist(), step=k, index=i)
+            d = outf[:, i] - pos
+            # |d| and |ref| by scaled norms (2^+-200 must not over/underflow in the squares)
+            sc = max(float(np.max(np.abs(ref))), TINY)
+            nd, nr = float(np.linalg.norm(d / sc) * sc), float(np.linalg.norm(ref / sc) * sc)
+            if "rigid" not in bad and not abs(nd - nr) <= rel * S:
+                bad.add("rigid")
+                report("distance between the two points is constant (= |newref|)", nr, nd, step=k, index=i)
+            if "zero" not in bad and not any(ang) and not np.all(np.abs(outf[:, i] - (pos + ref)) <= 1e-12 * S):
+                bad.add("zero")
+                report("zero rotation is a pure offset", (pos + ref).tolist(), outf[:, i].tolist(), step=k, index=i)
+            if mlines is not None and disagree is not None:
+                o = mlines[i]
+                m = [unfbits(x) for x in o.split()[1:]] if o.startswith("ok") else None
+                if m is None or not all(abs(a - b) <= (1e-12 if rel == 1e-10 else rel) * S for a, b in zip(m, outf[:, i])):
+                    disagree("mo.transform", dict(case, step=k, index=i), m if m is not None else o, outf[:, i].tolist())
+        deferred.append((k, P, ref, unit, outf.copy()))
+        # what an earlier call returned is still the transformed motion of that call
+        for k0, obj, snap in earlier:
+            if not np.array_equal(np.asarray(obj, dtype=float), snap):
+                report("result equals an independent z-y-x Euler rotation plus the reference position "
+                       "(result of step %d re-read after step %d)" % (k0, k), snap.tolist(), np.asarray(obj, dtype=float).tolist(), step=k)
+        earlier.append((k, out, outf.copy()))
+    # degree and radian input agree (fresh arrays with the converted angles; after the history, so that no call of the harness
+    # comes between two calls of the history)
+    for k, P, ref, unit, outf in deferred:
+        other = P.copy()
+        other[3:, :] = np.degrees(P[3:, :]) if unit == "rad" else np.radians(P[3:, :])
+        o2, err2 = _call(transform_motion, other, ref.copy(), rotunit="deg" if unit == "rad" else "rad")
+        if err2 is not None:
+            report("degree and radian input agree", "a result for the converted angles", err2, step=k)
+        else:
+            S = float(np.max(np.abs(ref))) + np.max(np.abs(P[:3, :]), axis=0)
+            if not np.all(np.abs(np.asarray(o2, dtype=float) - outf) <= max(1e-9, rel) * S):
+                report("degree and radian input agree", outf.tolist(), np.asarray(o2, dtype=float).tolist(), step=k)
+
+
+# ---- velocity / acceleration cases ------------------------------------------------------------------------------------
+def _pow2(q):
+    q = Fraction(q)
+    return q > 0 and (q.numerator & (q.numerator - 1)) == 0 and (q.denominator & (q.denominator - 1)) == 0
+
+
+def _gr_states(case):
+    """pristine exact state before every call step: [(step index, fn, X rows of Fractions, t (Fraction | list), polys)]"""
+    X = [[Fraction(v) for v in r] for r in case["x"]]
+    t = case["t"]
+    T = Fraction(t["step"]) if "step" in t else [Fraction(v) for v in t["arr"]]
+    polys = [None if p is None else [Fraction(v) for v in p] for p in case["polys"]]
+    out = []
+    for k, st in enumerate(case["steps"]):
+        if st["op"] == "setx":
+            X = [list(r) for r in X]
+            X[st["row"]][st["col"]] = Fraction(st["value"])
+            polys = list(polys)
+            polys[st["row"]] = None
+        elif st["op"] == "setrow":
+            X = [list(r) for r in X]
+            X[st["row"]] = [Fraction(v) for v in st["values"]]
+            polys = list(polys)
+            polys[st["row"]] = None if st["poly"] is None else [Fraction(v) for v in st["poly"]]
+        elif st["op"] == "sett":
+            T = Fraction(st["t"]["step"]) if "step" in st["t"] else [Fraction(v) for v in st["t"]["arr"]]
+            polys = [None] * len(polys)
+        else:
+            out.append((k, st["op"], X, T, polys))
+    return out
+
+
+def _gr_lines(case):
+    lines = []
+    for _, fn, X, T, _ in _gr_states(case):
+        for r in X:
+            if isinstance(T, list):
+                lines.append("mo.%s arr %s | %s" % (fn, " ".join(rat(v) for v in T), " ".join(rat(v) for v in r)))
+            else:
+                lines.append("mo.%s step %s %s" % (fn, rat(T), " ".join(rat(v) for v in r)))
+    return lines
+
+
+def _gr_eval(case, fns, report, model=None, disagree=None):
+    """evaluate the clauses of velocity / acceleration on one case (one signal OBJECT and one time OBJECT for all steps)"""
+    states = {k: s for s in _gr_states(case) for k in [s[0]]}
+    ndim = case["ndim"]
+    X0 = [[Fraction(v) for v in r] for r in case["x"]]
+    xobj = _make_2d(X0, case["xcont"]) if ndim == 2 else _make_1d(X0[0], case["xcont"])
+    t = case["t"]
+    tobj = _make_step(Fraction(t["step"]), case["tcont"]) if "step" in t else _make_1d([Fraction(v) for v in t["arr"]], case["tcont"])
+    tcont = case["tcont"]
+    earlier, deferred, mi = [], [], 0
+    for k, st in enumerate(case["steps"]):
+        if st["op"] == "setx":
+            if ndim == 2:
+                xobj[st["row"]][st["col"]] = float(Fraction(st["value"]))
+            else:
+                xobj[st["col"]] = float(Fraction(st["value"]))
+            continue
+        if st["op"] == "setrow":
+            vals = [float(Fraction(v)) for v in st["values"]]
+            if ndim == 2:
+                xobj[st["row"]][:] = vals
+            else:
+                xobj[:] = vals
+            continue
+        if st["op"] == "sett":
+            if "step" in st["t"]:
+                tobj = _make_step(Fraction(st["t"]["step"]), tcont)
+            else:
+                tobj[:] = [float(Fraction(v)) for v in st["t"]["arr"]]   # the same time array object, new grid
+            continue
+        _, fn, X, T, polys = states[k]
+        f = fns[fn]
+        order = 1 if fn == "vel" else 2
+        nrow, n = len(X), len(X[0])
+        scalar = not isinstance(T, list)
+        ts = [i * T for i in range(n)] if scalar else T
+        hs = [b - a for a, b in zip(ts, ts[1:])]
+        hmin = float(min(hs)) if hs else 1.0
+        exact = (not case.get("float")) and bool(hs) and all(h == hs[0] for h in hs) and _pow2(hs[0])
+        mrows = None
+        if model is not None:
+            mrows = model[mi:mi + nrow]
+            mi += nrow
+        got, err = _call(f, xobj, tobj)
+        shape = (nrow, n) if ndim == 2 else (n,)
+        if n < 2 or hmin <= 0:
+            # fewer than two samples: outside the property; the tie only asks that model and implementation both refuse
+            if disagree is not None and mrows is not None and (err is None) != (not mrows[0].startswith("err")):
+                disagree("mo." + fn, dict(case, step=k), mrows[0], err if err is not None else np.asarray(got).tolist())
+            continue
+        if err is not None:
+            report("%s of a signal with >= 2 samples exists, for a scalar step or a time array (it raised)"
+                   % ("velocity" if fn == "vel" else "acceleration"), "an array of shape %s" % (list(shape),), err, step=k)
+            continue
+        got = np.asarray(got)
+        if got.shape != shape:
+            report("result keeps the input shape", list(shape), list(got.shape), step=k)
+            continue
+        g2 = got.astype(float).reshape(nrow, n)
+        for r in range(nrow):
+            xmax = float(max(abs(v) for v in X[r]))
+            tol = 1e-10 * xmax / hmin ** order + TINY
+            # tie with the Lean model (exact on power-of-two grids with dyadic signals)
+            if mrows is not None and disagree is not None:
+                o = mrows[r]
+                m = [float(Fraction(v)) for v in o.split()[1:]] if o.startswith("ok") else None
+                ttol = 0.0 if exact else 0.1 * tol
+                if m is None or len(m) != n or any(abs(a - b) > ttol + 1e-12 * abs(b) * (not exact) for a, b in zip(m, g2[r])):
+                    disagree("mo." + fn, dict(case, step=k, row=r), m if m is not None else o, g2[r].tolist())
+            # exact for motion of degree <= 2 (in tau = t - t0)
+            if polys[r] is not None:
+                a, p, q, t0 = polys[r]
+                if fn == "vel":
+                    lo, hi = (0, n) if a == 0 else (1, n - 1)
+                    exp = [float(2 * a * (u - t0) + p) for u in ts]
+                else:
+                    lo, hi = (0, n) if a == 0 else (2, n - 2)
+                    exp = [float(2 * a)] * n
+                for i in range(lo, hi):
+                    if not abs(g2[r][i] - exp[i]) <= tol + 1e-12 * abs(exp[i]):
+                        report("%s exact for degree<=2 motion away from the ends (velocity from the 2nd, acceleration from the 3rd "
+                               "sample; everywhere for constant velocity)" % fn, exp[i], float(g2[r][i]), step=k, row=r, index=i)
+                        break
+            if ndim == 2:
+                deferred.append((k, r, f, X[r], T, scalar, tol, g2[r].copy()))
+        for k0, obj, snap in earlier:
+            if not np.array_equal(np.asarray(obj, dtype=float), snap):
+                report("result keeps the derivative of the signal it was computed from (result of step %d re-read after step %d)"
+                       % (k0, k), snap.tolist(), np.asarray(obj, dtype=float).tolist(), step=k)
+        earlier.append((k, got, got.astype(float).copy()))
+    # 2-D input is processed row by row (fresh 1-D calls, after the history)
+    for k, r, f, xr, T, scalar, tol, grow in deferred:
+        one, e1 = _call(f, np.array([float(v) for v in xr]), float(T) if scalar else np.array([float(v) for v in T]))
+        if e1 is not None or not np.all(np.abs(np.asarray(one, dtype=float) - grow) <= tol):
+            report("2-D input is processed row by row with the input shape", e1 if e1 is not None else
+                   np.asarray(one, dtype=float).tolist(), grow.tolist(), step=k, row=r)
+
+
+def _hom_eval(case, fns, report):
+    """linearity, special case: the signal in other units, f(2^p x) = 2^p f(x) (power-of-two factors scale every float operation exactly)"""
+    f = fns[case["fn"]]
+    x = np.array([float(Fraction(v)) for v in case["x"]])
+    t = case["t"]
+    tf = float(Fraction(t["step"])) if "step" in t else np.array([float(Fraction(v)) for v in t["arr"]])
+    base, e0 = _call(f, x, tf)
+    fac = 2.0 ** case["p"]
+    sc, e1 = _call(f, x * fac, tf)
+    if e0 is not None or e1 is not None:
+        report("linear in the signal: f(2^p x) = 2^p f(x) (it raised)", "two results", e0 or e1)
+        return
+    base, sc = np.asarray(base, dtype=float), np.asarray(sc, dtype=float)
+    if base.shape != sc.shape or not np.all(np.abs(sc - fac * base) <= 1e-12 * fac * (float(np.max(np.abs(base))) + TINY)):
+        report("linear in the signal: f(2^p x) = 2^p f(x)", (fac * base).tolist(), sc.tolist())
+
+
+# ---- generators (every choice from rng) ---------------------------------------------------------------------------------
+ANGLES_DEG = [0.0, -0.0, 90.0, -90.0, 180.0, -180.0, 270.0, 360.0, -360.0, 450.0, 720.0, 1e-9, -1e-7, 30.0, 45.0, 89.999999, 179.5, 390.0]
+
+
+def _gen_tm_spelling(rng):
+    nt = rng.choice([1, 1, 2, 3])
+    unit = rng.choice(["deg", "rad"])
+    ints = rng.random() < 0.5
+    if ints:
+        pos = [[rng.randint(-20, 20) for _ in range(nt)] for _ in range(3)]
+        rot = [[rng.choice([rng.randint(-170, 170), 0, 90, -90, 180, 45]) if unit == "deg" else rng.randint(-3, 3) for _ in range(nt)]
+               for _ in range(3)]
+        mcont = rng.choice(TM_CONT_INT + TM_CONT_INT + TM_CONT_FLOAT)
+    else:
+        pos = [[rng.randint(-400, 400) / 8.0 for _ in range(nt)] for _ in range(3)]
+        amp = 180 * 8 if unit == "deg" else 25
+        rot = [[rng.randint(-amp, amp) / 8.0 for _ in range(nt)] for _ in range(3)]
+        mcont = rng.choice(TM_CONT_FLOAT)
+    steps = []
+    for j in range(rng.choice([1, 2, 2])):
+        if j and rng.random() < 0.5:
+            st = dict(op="call", rcont="same", unit=unit, unitarg=rng.choice(["pos", "kw"]))
+        else:
+            if rng.random() < 0.4:
+                newref = [rng.randint(-30, 30) for _ in range(3)]
+                rcont = rng.choice(REF_CONT_INT + REF_CONT_FLOAT)
+            else:
+                newref = [rng.randint(-240, 240) / 8.0 + rng.choice([0.0, 0.3]) for _ in range(3)]
+                rcont = rng.choice(REF_CONT_FLOAT)
+            st = dict(op="call", newref=newref, rcont=rcont, unit=unit,
+                      unitarg=rng.choice(["pos", "kw", "kw-all"] + (["default", "default"] if unit == "deg" else [])))
+        steps.append(st)
+    return dict(kind="tm", motion=pos + rot, mcont=mcont, steps=steps)
+
+
+def _gen_tm_boundary(rng):
+    nt = rng.choice([1, 2, 3, 7, 20])
+    unit = rng.choice(["deg", "rad"])
+    pp = rng.choice([-200, -60, -1, 0, 0, 10, 30, 60, 200])
+    rp = rng.choice([-200, -60, -1, 0, 0, 10, 60, 200, None])
+    pos = [[rng.uniform(-1, 1) * 2.0 ** pp for _ in range(nt)] for _ in range(3)]
+    if rng.random() < 0.15:
+        pos = [[rng.choice([1e9, -3e8, 2.0 ** 40]) + rng.uniform(-1, 1) for _ in range(nt)] for _ in range(3)]
+    if rp is None:
+        newref = [0.0, 0.0, 0.0]
+    else:
+        newref = [rng.uniform(-1, 1) * 2.0 ** rp for _ in range(3)]
+        if rng.random() < 0.3:                                     # a body point on one axis
+            keep = rng.randrange(3)
+            newref = [v if j == keep else 0.0 for j, v in enumerate(newref)]
+    rot = []
+    for _ in range(3):
+        row = []
+        for _ in range(nt):
+            u = rng.random()
+            d = rng.choice(ANGLES_DEG) if u < 0.6 else (rng.uniform(-3600, 3600) if u < 0.8 else rng.uniform(-180, 180))
+            row.append(d if unit == "deg" else math.radians(d))
+        rot.append(row)
+    return dict(kind="tm", motion=pos + rot, mcont=rng.choice(["ndarray", "ndarray", "readonly", "list"]),
+                steps=[dict(op="call", newref=newref, rcont=rng.choice(["list", "ndarray", "tuple"]), unit=unit, unitarg="kw")])
+
+
+def _gen_tm_history(rng):
+    nt = rng.choice([1, 2, 4])
+    pos = [[rng.randint(-400, 400) / 8.0 for _ in range(nt)] for _ in range(3)]
+    rot = [[rng.choice([rng.randint(-1400, 1400) / 8.0, 0.0, 90.0, 2.5]) for _ in range(nt)] for _ in range(3)]
+    mcont = rng.choice(TM_CONT_MUTABLE + ["ndarray", "readonly", "list"])
+    steps, have_ref, rmut = [], False, False
+    base = rng.choice(["deg", "deg", "rad"])                       # mostly one unit per history: consecutive calls differ in one thing
+    for j in range(rng.choice([3, 4, 6])):
+        u = rng.random()
+        if have_ref and u < 0.25 and mcont != "readonly":
+            steps.append(dict(op="set", row=rng.randrange(6), col=rng.randrange(nt), value=rng.randint(-720, 720) / 8.0))
+        elif have_ref and rmut and u < 0.35:
+            steps.append(dict(op="setref", idx=rng.randrange(3), value=rng.randint(-80, 80) / 8.0))
+        unit = base if rng.random() < 0.8 else ("rad" if base == "deg" else "deg")
+        unitarg = rng.choice(["kw", "pos"] + (["default"] if unit == "deg" else []))
+        if have_ref and rng.random() < 0.5:
+            steps.append(dict(op="call", rcont="same", unit=unit, unitarg=unitarg))
+        else:
+            rcont = rng.choice(["ndarray", "ndarray", "list", "readonly"])
+            steps.append(dict(op="call", newref=[rng.randint(-240, 240) / 8.0 for _ in range(3)], rcont=rcont, unit=unit, unitarg=unitarg))
+            have_ref, rmut = True, rcont in ("ndarray", "list")
+    return dict(kind="tm", motion=pos + rot, mcont=mcont, steps=steps)
+
+
+def _rs(v):
+    return rat(Fraction(v))
+
+
+def _gen_poly(rng, ts, t0, ints, kind=None):
+    """(values, poly) of a signal on the grid ts; poly = [a, p, q, t0] in tau = t - t0, or None for a random signal"""
+    kind = rng.random() if kind is None else kind
+    den = 1 if ints else 2
+    if kind < 0.3:
+        a, p, q = Fraction(0), Fraction(rng.randint(-6, 6), den), Fraction(rng.randint(-6, 6))
+    elif kind < 0.75:
+        a, p, q = Fraction(rng.randint(-4, 4), den), Fraction(rng.randint(-6, 6), den), Fraction(rng.randint(-6, 6))
+    else:
+        return [Fraction(rng.randint(-32, 32), 1 if ints else rng.choice([1, 2, 4])) for _ in ts], None
+    return [a * (u - t0) ** 2 + p * (u - t0) + q for u in ts], [a, p, q, t0]
+
+
+def _gen_grid(rng, n, ints):
+    """(t spec dict builder) -> (scalar?, h or None, ts list, t0)"""
+    u = rng.random()
+    t0 = Fraction(rng.choice([0, 0, 3, -4, 100, 2 ** 20, -2 ** 25, 2 ** 30]))
+    if u < 0.65:
+        h = Fraction(rng.choice([1, 2, 4])) if ints else Fraction(1, rng.choice([1, 2, 4, 8, 1024])) * rng.choice([1, 1, 2, 16])
+        return h, [t0 + i * h for i in range(n)], t0
+    ts = [t0]
+    for _ in range(n - 1):
+        ts.append(ts[-1] + (Fraction(rng.choice([1, 2, 3, 5])) if ints else Fraction(rng.choice([1, 2, 3, 4, 6]), rng.choice([1, 2, 4]))))
+    return None, ts, t0
+
+
+def _gen_gr_spelling(rng):
+    n = rng.choice([2, 3, 5, 6, 9])
+    ndim = rng.choice([1, 1, 2])
+    nrow = 1 if ndim == 1 else rng.choice([1, 2, 3])
+    ints = rng.random() < 0.5
+    h, ts, t0 = _gen_grid(rng, n, ints)
+    scalar = h is not None and rng.random() < 0.5
+    if scalar:
+        ts, t0 = [i * h for i in range(n)], Fraction(0)
+    rows, polys = [], []
+    for _ in range(nrow):
+        xs, po = _gen_poly(rng, ts, t0, ints)                      # ints: whole coefficients on a whole-number grid (integer containers)
+        rows.append(xs)
+        polys.append(po)
+    allint = all(v.denominator == 1 for r in rows for v in r)
+    if ndim == 1:
+        xcont = rng.choice(X_CONT_FLOAT + (X_CONT_INT * 2 if allint else []))
+    else:
+        xcont = rng.choice(X2_CONT_FLOAT + (X2_CONT_INT * 2 if allint else []))
+    if scalar:
+        pool = T_SCALAR_FLOAT * 3 + (["np.float32", "0-d"] if _pow2(h) else []) + (["int", "np.int64"] * 2 if h.denominator == 1 else [])
+        tcont, t = rng.choice(pool), dict(step=_rs(h))
+    else:
+        tint = all(v.denominator == 1 for v in ts)
+        tcont, t = rng.choice(T_ARR_FLOAT + (T_ARR_INT * 2 if tint else [])), dict(arr=[_rs(v) for v in ts])
+    steps = [dict(op=o) for o in rng.choice([["vel", "acc"], ["acc", "vel"], ["vel", "vel", "acc", "acc"], ["acc"], ["vel"]])]
+    return dict(kind="gr", ndim=ndim, x=[[_rs(v) for v in r] for r in rows], xcont=xcont, t=t, tcont=tcont,
+                polys=[None if p is None else [_rs(v) for v in p] for p in polys], steps=steps)
+
+
+def _gen_gr_boundary(rng):
+    u = rng.random()
+    if u < 0.3:
+        # the signal in other units: x * 2^p (exact)
+        n = rng.choice([2, 3, 4, 5, 7, 12])
+        h, ts, t0 = _gen_grid(rng, n, False)
+        xs, po = _gen_poly(rng, ts, t0, False)
+        f = Fraction(2) ** rng.choice([-200, -60, -20, 20, 60, 200])
+        xs = [v * f for v in xs]
+        po = None if po is None else [po[0] * f, po[1] * f, po[2] * f, po[3]]
+        scalar = h is not None and rng.random() < 0.5
+        t = dict(step=_rs(h)) if scalar else dict(arr=[_rs(v) for v in ts])
+        if scalar and po is not None:
+            po[3] = Fraction(0)
+            xs = [po[0] * (i * h) ** 2 + po[1] * (i * h) + po[2] for i in range(n)]
+        return dict(kind="gr", ndim=1, x=[[_rs(v) for v in xs]], xcont="ndarray", t=t, tcont="float" if scalar else "ndarray",
+                    polys=[None if po is None else [_rs(v) for v in po]], steps=[dict(op="vel"), dict(op="acc")])
+    if u < 0.75:
+        # decimal steps: the grid is what float arithmetic makes of t0 + i*h; the samples are the rounded polynomial values
+        n = rng.choice([2, 3, 5, 8, 11, 25])
+        hf = rng.choice([0.1, 0.01, 0.05, 0.2, 0.3, 0.001, 0.025, 0.5, 1.5, 10.0])
+        t0f = rng.choice([0.0, 0.0, 100.0, -7.3, 1e4, 0.7])
+        scalar = rng.random() < 0.4
+        if scalar:
+            ts, t0 = [i * Fraction(hf) for i in range(n)], Fraction(0)
+            t = dict(step=_rs(Fraction(hf)))
+        else:
+            w = rng.random()
+            arr = (np.arange(n) * hf + t0f) if w < 0.4 else (np.linspace(t0f, t0f + (n - 1) * hf, n) if w < 0.8 else
+                                                              np.array([t0f + i * hf for i in range(n)]))
+            ts, t0 = [Fraction(float(v)) for v in arr], Fraction(t0f)
+            t = dict(arr=[_rs(v) for v in ts])
+        nrow = rng.choice([1, 1, 2])
+        rows, polys = [], []
+        for _ in range(nrow):
+            xs, po = _gen_poly(rng, ts, t0, False, kind=rng.choice([0.1, 0.5, 0.5, 0.9]))
+            rows.append([Fraction(float(v)) for v in xs])        # the float the caller would hold
+            polys.append(po)
+        return dict(kind="gr", ndim=1 if nrow == 1 else 2, x=[[_rs(v) for v in r] for r in rows], xcont="ndarray", t=t,
+                    tcont=rng.choice(T_SCALAR_FLOAT) if scalar else "ndarray", float=True,
+                    polys=[None if p is None else [_rs(v) for v in p] for p in polys],
+                    steps=[dict(op=o) for o in rng.choice([["vel", "acc"], ["acc", "vel"]])])
+    # very short signals (1 sample: both refuse; 2..4: the end formulas only), constants
+    n = rng.choice([1, 2, 2, 3, 4])
+    h, ts, t0 = _gen_grid(rng, n, False)
+    xs, po = _gen_poly(rng, ts, t0, False, kind=rng.choice([0.1, 0.5, 0.9]))
+    if rng.random() < 0.2:
+        xs, po = [Fraction(5, 2)] * n, [Fraction(0), Fraction(0), Fraction(5, 2), t0]
+    scalar = h is not None and rng.random() < 0.5
+    if scalar and po is not None:
+        xs, po = [po[0] * (i * h) ** 2 + po[1] * (i * h) + po[2] for i in range(n)], po[:3] + [Fraction(0)]
+    ndim = rng.choice([1, 2])
+    return dict(kind="gr", ndim=ndim, x=[[_rs(v) for v in xs]], xcont=rng.choice(["ndarray", "list"]),
+                t=dict(step=_rs(h)) if scalar else dict(arr=[_rs(v) for v in ts]), tcont="float" if scalar else rng.choice(["ndarray", "list"]),
+                polys=[None if po is None else [_rs(v) for v in po]], steps=[dict(op="vel"), dict(op="acc")])
+
+
+def _gen_gr_history(rng):
+    n = rng.choice([3, 5, 6, 9])
+    ndim = rng.choice([1, 2])
+    nrow = 1 if ndim == 1 else rng.choice([2, 3])
+    h, ts, t0 = _gen_grid(rng, n, False)
+    scalar = h is not None and rng.random() < 0.4
+    if scalar:
+        ts, t0 = [i * h for i in range(n)], Fraction(0)
+    rows, polys = [], []
+    for _ in range(nrow):
+        xs, po = _gen_poly(rng, ts, t0, False)
+        rows.append(xs)
+        polys.append(po)
+    ro = rng.random() < 0.2
+    xcont = "readonly" if ro else rng.choice(["ndarray", "ndarray", "step-view" if ndim == 1 else "T-view", "F-order" if ndim == 2 else "ndarray"])
+    tcont = rng.choice(T_SCALAR_FLOAT) if scalar else ("readonly" if ro else rng.choice(["ndarray", "ndarray", "step-view"]))
+    t_first = dict(step=_rs(h)) if scalar else dict(arr=[_rs(v) for v in ts])
+    steps = []
+    for j in range(rng.choice([3, 4, 6, 8])):
+        u = rng.random()
+        if j and not ro and u < 0.2:
+            steps.append(dict(op="setx", row=rng.randrange(nrow), col=rng.randrange(n), value=_rs(Fraction(rng.randint(-64, 64), 4))))
+        elif j and not ro and u < 0.35:
+            xs, po = _gen_poly(rng, ts, t0, False)
+            steps.append(dict(op="setrow", row=rng.randrange(nrow), values=[_rs(v) for v in xs], poly=None if po is None else [_rs(v) for v in po]))
+        elif j and (scalar or not ro) and u < 0.5:
+            # another grid with the same number of samples (same time OBJECT when it is an array)
+            h2, ts2, t02 = _gen_grid(rng, n, False)
+            if scalar:
+                h2 = h2 if h2 is not None else Fraction(1, 4)
+                ts, t0 = [i * h2 for i in range(n)], Fraction(0)
+                steps.append(dict(op="sett", t=dict(step=_rs(h2))))
+            else:
+                ts, t0 = ts2, t02
+                steps.append(dict(op="sett", t=dict(arr=[_rs(v) for v in ts2])))
+            if not ro:
+                for r in range(nrow):
+                    xs, po = _gen_poly(rng, ts, t0, False)
+                    steps.append(dict(op="setrow", row=r, values=[_rs(v) for v in xs], poly=None if po is None else [_rs(v) for v in po]))
+        steps.append(dict(op=rng.choice(["vel", "acc"])))
+    return dict(kind="gr", ndim=ndim, x=[[_rs(v) for v in r] for r in rows], xcont=xcont,
+                t=t_first, tcont=tcont,
+                polys=[None if p is None else [_rs(v) for v in p] for p in polys], steps=steps)
+
+
+def _gen_hom(rng):
+    n = rng.choice([2, 3, 5, 8])
+    h, ts, t0 = _gen_grid(rng, n, False)
+    xs, _ = _gen_poly(rng, ts, t0, False, kind=rng.choice([0.5, 0.9, 0.9]))
+    scalar = h is not None and rng.random() < 0.5
+    return dict(kind="hom", fn=rng.choice(["vel", "acc"]), x=[_rs(v) for v in xs], p=rng.choice([-200, -60, -7, 1, 13, 60, 200]),
+                t=dict(step=_rs(h)) if scalar else dict(arr=[_rs(v) for v in ts]))
+
+
+def is_f39_shape(f):
+    """finding F39 (proposed): a scalar time step that is not a Python float (int, numpy integer, float32, 0-d array) is taken
+    for a time array and rejected by the size assertion.  Narrow: gradient case, such a step type, an AssertionError."""
+    inp = f.get("input") or {}
+    return inp.get("kind") == "gr" and inp.get("tcont") in T_SCALAR_OTHER and "step" in (inp.get("t") or {}) and \
+        str(f.get("observed", "")).startswith("err:AssertionError") and "raised" in str(f.get("oracle", ""))
+
+
+def _run_cases(chk, drv, cases, stream, fns, transform_motion):
+    """model replies for all cases in one driver run, then the clauses of every case on the implementation"""
+    lines, spans = [], []
+    for c in cases:
+        ls = _tm_lines(c) if c["kind"] == "tm" else (_gr_lines(c) if c["kind"] == "gr" else [])
+        spans.append((len(lines), len(lines) + len(ls)))
+        lines += ls
+    outs = drv.run(lines)
+    for c, (a, b) in zip(cases, spans):
+        chk.count(stream)
+        rep = lambda oracle, expected, observed, _c=c, **kw: chk.fail(oracle, _c, expected, observed, **kw)
+        try:
+            if c["kind"] == "tm":
+                _tm_eval(c, transform_motion, rep, outs[a:b], chk.disagree)
+                ncall = sum(1 for s in c["steps"] if s["op"] == "call")
+                chk.dist("%s:%s:calls=%s" % (stream, c["mcont"], min(ncall, 3)))
+                if ncall >= 2 or np.count_nonzero(np.array(c["motion"], dtype=float)[3:]) >= 2:
+                    chk.nontriv(repr(c))
+            elif c["kind"] == "gr":
+                _gr_eval(c, fns, rep, outs[a:b], chk.disagree)
+                chk.dist("%s:%s:%s" % (stream, c["xcont"], c["tcont"]))
+                if len(c["x"][0]) >= 5 or len(c["steps"]) >= 3:
+                    chk.nontriv(repr(c))
+            else:
+                _hom_eval(c, fns, rep)
+                chk.dist("%s:p=%d" % (stream, c["p"]))
+        except Exception as e:                                    # noqa: BLE001  (a harness-side surprise is reported, not raised)
+            chk.fail("the clauses of the property can be evaluated on this case", c, "no exception",
+                     "err:%s: %s" % (type(e).__name__, str(e)[:200]))
+
+
 def run(chk):
     from qats.motions import transform_motion, velocity, acceleration
     chk.extra["rule"] = RULE
     chk.assumptions += ["np.gradient(edge_order=1) second-order interior formula as documented by numpy (modelled in Qats.Motion.interior)",
                         "rotation correspondence tolerance 1e-12 relative to the vector length; gradient correspondence exact on "
-                        "power-of-two grids, 1e-12 on non-uniform grids (float division)"]
+                        "power-of-two grids, 1e-12 on non-uniform grids (float division)",
+                        "cases tm/gr: tolerances relative to the magnitudes, without an absolute floor: 1e-10 (|newref| + |position|) for the "
+                        "rotation clauses (1e-5 for float32 motions, 1e-9 for deg/rad), 1e-10 max|x| / hmin^k for the k-th derivative "
+                        "(rounding of the samples and of the difference quotients), exact tie on power-of-two grids with dyadic samples",
+                        "a 1-sample signal is outside the property (model and implementation must both refuse it)"]
     rng = chk.rng
     drv = core.Driver()
+    fns = dict(vel=velocity, acc=acceleration)
+    # ---- corner cases that are always tried first (corpus/C20) ------------------------------------------------------
+    _run_cases(chk, drv, [c for c in core.load_corpus("C20") if c.get("kind") in ("tm", "gr", "hom")], "corpus", fns, transform_motion)
     # ---- transform_motion ---------------------------------------------------------------------------------------
     N = 200 if chk.quick else 3000
     lines, meta = [], []
@@ -60,7 +767,11 @@ def run(chk):
         ref = [rng.uniform(-100, 100) for _ in range(3)]
         if rng.random() < 0.05:
             ref = [0.0, 0.0, 0.0]
-        out = transform_motion(mot, ref, rotunit=unit)
+        out, err = _call(transform_motion, mot, ref, rotunit=unit)
+        if err is not None:
+            chk.fail("transform_motion returns the position of the new point for a valid 6-dof motion (it raised)",
+                     dict(motion=mot[:, 0].tolist(), newref=ref, rotunit=unit), "positions of shape (3, %d)" % nt, err)
+            continue
         for i in range(nt):
             lines.append("mo.transform %s %s" % ("1" if unit == "deg" else "0",
                                                  " ".join(fbits(v) for v in list(mot[:, i]) + ref)))
@@ -89,8 +800,10 @@ def run(chk):
             chk.fail("zero rotation is a pure offset", inp, (mot[:3, i] + np.array(ref)).tolist(), out[:, i].tolist())
         other = mot.copy()
         other[3:, :] = np.degrees(mot[3:, :]) if unit == "rad" else np.radians(mot[3:, :])
-        o2 = transform_motion(other, ref, rotunit="deg" if unit == "rad" else "rad")
-        if not np.allclose(o2[:, i], out[:, i], rtol=0, atol=1e-9 * sc):
+        o2, err = _call(transform_motion, other, ref, rotunit="deg" if unit == "rad" else "rad")
+        if err is not None:
+            chk.fail("degree and radian input agree", inp, out[:, i].tolist(), err)
+        elif not np.allclose(o2[:, i], out[:, i], rtol=0, atol=1e-9 * sc):
             chk.fail("degree and radian input agree", inp, out[:, i].tolist(), o2[:, i].tolist())
         if i == 0 and len(chk.samples) < 2:
             chk.sample(dict(inp, result=out[:, i].tolist()))
@@ -98,19 +811,24 @@ def run(chk):
     for _ in range(30 if chk.quick else 300):
         mot_i = np.array([[rng.randint(-20, 20)] for _ in range(3)] + [[rng.randint(-170, 170)] for _ in range(3)])
         ref = [float(rng.randint(-30, 30)) for _ in range(3)]
-        oi = np.asarray(transform_motion(mot_i, ref), dtype=float)
-        of = transform_motion(mot_i.astype(float), ref)
         chk.count("mo.int-motion")
-        if not np.allclose(oi, of, rtol=0, atol=1e-9):
+        pair, err = _call(lambda: (np.asarray(transform_motion(mot_i, ref), dtype=float), transform_motion(mot_i.astype(float), ref)))
+        if err is not None:
             chk.fail("integer and float input of the same motion agree", dict(motion=mot_i[:, 0].tolist(), newref=ref, rotunit="deg"),
-                     of[:, 0].tolist(), oi[:, 0].tolist())
+                     "two results", err)
+        elif not np.allclose(pair[0], pair[1], rtol=0, atol=1e-9):
+            chk.fail("integer and float input of the same motion agree", dict(motion=mot_i[:, 0].tolist(), newref=ref, rotunit="deg"),
+                     pair[1][:, 0].tolist(), pair[0][:, 0].tolist())
     # two body points keep their distance
     for _ in range(50 if chk.quick else 500):
         mot = np.array([[rng.uniform(-5, 5)] for _ in range(3)] + [[rng.uniform(-180, 180)] for _ in range(3)])
         a, b = [rng.uniform(-10, 10) for _ in range(3)], [rng.uniform(-10, 10) for _ in range(3)]
-        da = transform_motion(mot, a)[:, 0] - transform_motion(mot, b)[:, 0]
         chk.count("mo.rigid-pairs")
-        if abs(np.linalg.norm(da) - np.linalg.norm(np.array(a) - np.array(b))) > 1e-10 * 30:
+        da, err = _call(lambda: transform_motion(mot, a)[:, 0] - transform_motion(mot, b)[:, 0])
+        if err is not None:
+            chk.fail("distance between two body points is preserved", dict(motion=mot[:, 0].tolist(), a=a, b=b),
+                     float(np.linalg.norm(np.array(a) - np.array(b))), err)
+        elif abs(np.linalg.norm(da) - np.linalg.norm(np.array(a) - np.array(b))) > 1e-10 * 30:
             chk.fail("distance between two body points is preserved", dict(motion=mot[:, 0].tolist(), a=a, b=b),
                      float(np.linalg.norm(np.array(a) - np.array(b))), float(np.linalg.norm(da)))
     # ---- velocity / acceleration ------------------------------------------------------------------------------------
@@ -191,28 +909,62 @@ def run(chk):
                     break
         # linearity and 2-D
         y = np.array([float(Fraction((i * 7) % 5 - 2, 2)) for i in range(n)])
-        lin = f(2.0 * xf - 3.0 * y, tf)
+        trip, err = _call(lambda: (f(2.0 * xf - 3.0 * y, tf), f(y, tf), f(np.vstack([xf, y]), tf)))
+        if err is not None:
+            chk.fail("linear in the signal / 2-D input is processed row by row (it raised)", inp, "results", err)
+            continue
+        lin, fy, two = trip
         hmin = float(h) if scalar else float(np.min(np.diff(tf)))
         lin_tol = 1e-11 * (1.0 + float(np.max(np.abs(xf)))) / hmin ** (1 if fn == "vel" else 2)   # cancellation in the difference quotients
-        if not np.allclose(lin, 2.0 * got - 3.0 * f(y, tf), rtol=1e-9, atol=lin_tol):
-            chk.fail("linear in the signal", inp, (2.0 * got - 3.0 * f(y, tf)).tolist(), lin.tolist())
-        two = f(np.vstack([xf, y]), tf)
-        if two.shape != (2, n) or not np.array_equal(two[0], got) or not np.array_equal(two[1], f(y, tf)):
+        if not np.allclose(lin, 2.0 * got - 3.0 * fy, rtol=1e-9, atol=lin_tol):
+            chk.fail("linear in the signal", inp, (2.0 * got - 3.0 * fy).tolist(), lin.tolist())
+        if two.shape != (2, n) or not np.array_equal(two[0], got) or not np.array_equal(two[1], fy):
             chk.fail("2-D input is processed row by row with the input shape", inp, "rows equal 1-D results", str(two.shape))
     chk.sample(dict(fn="vel", t="1", x=[0, 1, 4, 9, 16], model=[1, 2, 4, 6, 7]))
+    # ---- spellings, boundary values, histories --------------------------------------------------------------------------
+    q = 1 if chk.quick else 10
+    for stream, gen, cnt in (("tm.spelling", _gen_tm_spelling, 150), ("tm.boundary", _gen_tm_boundary, 120), ("tm.history", _gen_tm_history, 60),
+                             ("gr.spelling", _gen_gr_spelling, 220), ("gr.boundary", _gen_gr_boundary, 160), ("gr.history", _gen_gr_history, 80),
+                             ("gr.units", _gen_hom, 60)):
+        _run_cases(chk, drv, [gen(rng) for _ in range(cnt * q)], stream, fns, transform_motion)
 
 
 def replay(rp):
     from qats.motions import transform_motion, velocity, acceleration
     inp = rp["input"]
     bad = 0
-    if "motion" in inp and "newref" in inp:
+    if inp.get("kind") in ("tm", "gr", "hom"):
+        fails = []
+
+        def rep(oracle, expected, observed, **kw):
+            fails.append(oracle)
+            print("FAILS:", oracle, kw, "\n  expected", expected, "\n  observed", observed)
+
+        def dis(stream, i, m, im):
+            print("model and implementation differ (%s): model %s impl %s" % (stream, m, im))
+        case = {k: v for k, v in inp.items() if k not in ("step", "index", "row")}
+        drv = core.Driver()
+        if case["kind"] == "tm":
+            _tm_eval(case, transform_motion, rep, drv.run(_tm_lines(case)), dis)
+        elif case["kind"] == "gr":
+            _gr_eval(case, dict(vel=velocity, acc=acceleration), rep, drv.run(_gr_lines(case)), dis)
+        else:
+            _hom_eval(case, dict(vel=velocity, acc=acceleration), rep)
+        bad = len(fails)
+    elif "motion" in inp and "newref" in inp:
         mot = np.array(inp["motion"]).reshape(6, 1)
         out = transform_motion(mot, inp["newref"], rotunit=inp["rotunit"])[:, 0]
         ang = mot[3:, 0] if inp["rotunit"] == "rad" else np.radians(mot[3:, 0])
         e = euler(*ang) @ np.array(inp["newref"]) + mot[:3, 0]
         print("impl", out.tolist(), "euler", e.tolist())
         if not np.allclose(e, out, atol=1e-8):
+            bad += 1
+    elif "a" in inp and "b" in inp and "motion" in inp:
+        mot = np.array(inp["motion"], dtype=float).reshape(6, 1)
+        da = transform_motion(mot, inp["a"])[:, 0] - transform_motion(mot, inp["b"])[:, 0]
+        want = float(np.linalg.norm(np.array(inp["a"]) - np.array(inp["b"])))
+        print("distance of the transformed points", float(np.linalg.norm(da)), "body distance", want)
+        if abs(np.linalg.norm(da) - want) > 1e-10 * 30:
             bad += 1
     elif "fn" in inp:
         f = velocity if inp["fn"] == "vel" else acceleration
